@@ -1,2 +1,18 @@
 """Predicates used by known_findings.json.  Each is a pure function
 (sub, case, violation, params) -> bool that recognises ONE specific, documented defect."""
+
+
+def truncated_gaussian_scale_cap(sub, case, v, params):
+    """D16: TruncatedGaussian._fit bounds the scale by (max-min)^2, so a sample whose range is below 1 cannot be
+    fitted when its true scale exceeds range^2.  Matches only band misses of TruncatedGaussian fits on data with
+    range < 1 where the fitted scale sits at that cap."""
+    if v.tag not in ('recovery-true', 'recovery-empirical'):
+        return False
+    if case.get('family') != 'truncnorm':
+        return False
+    d = v.detail or {}
+    rng = d.get('range')
+    scale = (d.get('params') or {}).get('scale')
+    if rng is None or scale is None:
+        return False
+    return rng < 1.0 and scale >= 0.98 * rng ** 2
